@@ -67,6 +67,10 @@ def apply(text, rules, what, log):
     text, n = r2_log(text)
     if n:
         log['rewrites'].append({'rule': 'R2', 'item': what, 'count': n})
+    text, n = r8_panic(text)
+    if n:
+        log['rewrites'].append({'rule': 'R8', 'item': what, 'count': n,
+                                'note': 'explicit panic (assert!/debug_assert!/unreachable!/panic!) -> vx_panic() requires false: reaching it is a failed obligation'})
     text, n = r0_attrs(text)
     text, n = r0_vis(text)
     text, n = r0_pubfields(text)
@@ -74,6 +78,9 @@ def apply(text, rules, what, log):
     text, n = r0_duration_const(text)
     if n:
         log['rewrites'].append({'rule': 'R0c', 'item': what, 'count': n, 'note': 'Duration const as exec const with value ensures'})
+    if 'R6' not in rules and '.is_some_and(' in text:
+        # R6 is exact (`x.is_some_and(|p| e)` == `match x { Some(p) => e, None => false }`): applied wherever it occurs
+        rules = ['R6'] + list(rules)
     for r in rules:
         if r == 'R9':
             text, n = r9_float_args(text, log)
@@ -81,10 +88,15 @@ def apply(text, rules, what, log):
                 raise ExtractError('rule R9 enabled for %s but it matched nothing (anchor lost)' % what)
             log['rewrites'].append({'rule': 'R9', 'item': what, 'count': n})
             continue
+        optional = r.endswith('?')
+        r = r.rstrip('?')
         fn = RULES.get(r)
         if fn is None:
             raise ExtractError('unknown rewrite rule %s for %s' % (r, what))
         text, n = fn(text)
+        if n == 0 and optional:
+            # `Rn?`: the construct the rule rewrites is gone from this function; go on and let the verifier judge the new body
+            continue
         if n == 0:
             raise ExtractError('rule %s enabled for %s but it matched nothing (anchor lost)' % (r, what))
         log['rewrites'].append({'rule': r, 'item': what, 'count': n})
@@ -233,6 +245,22 @@ def r1_format(text):
         if '::alloc::fmt::format(' not in inner:
             raise ExtractError('R1: unexpected must_use payload')
         text = text[:j] + 'vx_fmt()' + text[q + 1:]
+        n += 1
+    return text, n
+
+
+def r8_panic(text):
+    """`::core::panicking::panic_fmt(format_args!(..))` / `::core::panicking::panic("..")` / unreachable_display etc.
+    -> `vx_panic()` (declared `requires false`), so an explicit panic that can be reached fails verification"""
+    n = 0
+    while True:
+        m = mask(text)
+        mo = re.search(r'::core::panicking::(panic_fmt|panic|unreachable_display|panic_display|panic_explicit)\s*\(', m)
+        if not mo:
+            break
+        p = mo.end() - 1
+        q = match_close(m, p)
+        text = text[:mo.start()] + 'vx_panic()' + text[q + 1:]
         n += 1
     return text, n
 
